@@ -496,3 +496,55 @@ func VH_jsonAgree(a []string) {
 	vNote("text", "entry "+vShow(table[i])+" vs json "+vShow(want[i]))
 	vAssert(vStrEq(table[i], want[i]), "tables-equal-json")
 }
+
+// letters whose Unicode simple case folding lands on an ASCII letter: U+017F (long s) -> s,
+// U+212A (Kelvin sign) -> k. A scanner that admits non-ASCII letters together with a
+// fold-insensitive lookup would accept ids spelled with them.
+func vConfuse(id string, which int) string {
+	out := ""
+	n := 0
+	for i := 0; i < len(id); i++ {
+		c := id[i]
+		if (c == 's' || c == 'S') && (which == 0 || which == 2) {
+			out += "\u017f"
+			n++
+		} else if (c == 'k' || c == 'K') && (which == 1 || which == 2) {
+			out += "\u212a"
+			n++
+		} else {
+			out += string(rune(c))
+		}
+	}
+	if n == 0 {
+		return ""
+	}
+	return out
+}
+
+func vTableConfusables(list string, which string) []string {
+	ids := vList(list)
+	out := make([]string, len(ids))
+	for i, id := range ids {
+		out[i] = vConfuse(id, vAtoi(which))
+	}
+	return out
+}
+
+// VH_nonASCII [list which]: ids re-spelled with non-ASCII letters that fold to ASCII are not
+// SPDX ids: the id alphabet is [A-Za-z0-9-.]; every such spelling is rejected everywhere.
+func VH_nonASCII(a []string) {
+	tab := vTableConfusables(a[0], a[1])
+	k := vPickInt(0, len(tab)-1, "k")
+	t := tab[k]
+	vAssume(t != "")
+	text := t
+	if a[0] == "exception" {
+		text = "MIT WITH " + t
+	}
+	vNote("text", vShow(text))
+	vAssert(vNot(vValid(text)), "non-ascii-spelling-rejected")
+	_, err := ExtractLicenses(text)
+	vAssert(err != nil, "non-ascii-spelling-rejected")
+	_, err2 := Satisfies("MIT", []string{text})
+	vAssert(err2 != nil, "non-ascii-spelling-rejected")
+}
